@@ -10,6 +10,11 @@ pub struct OwnedWalk {
     pos: usize,
     switch_p: u32,
     spurious_left: usize,
+    /// a burst: the next `burst_left` weak compare-exchanges all fail spuriously (a weak compare-exchange may fail any
+    /// number of times in a row; retry budgets and spin limits are only exercised this way)
+    burst_left: usize,
+    /// the burst hits the compare-exchanges of this thread only, so that all of them fall into one call
+    burst_thread: usize,
 }
 
 impl OwnedWalk {
@@ -33,7 +38,11 @@ impl Chooser for OwnedWalk {
         let b = self.byte() as usize;
         d.enabled[(b * d.enabled.len()) >> 8]
     }
-    fn fail_spuriously(&mut self, _d: &Decision, _t: usize) -> bool {
+    fn fail_spuriously(&mut self, _d: &Decision, t: usize) -> bool {
+        if self.burst_left > 0 && t == self.burst_thread {
+            self.burst_left -= 1;
+            return true;
+        }
         if self.spurious_left > 0 {
             let b = self.byte();
             if b >= 232 {
@@ -147,10 +156,15 @@ pub fn make_chooser(src: &mut Src, nthreads: usize, horizon: usize, rep: &mut Re
             rep.class("schedule:walk");
             let switch_p = [64u32, 32, 128][src.below(3)];
             let spurious_left = src.below(4);
+            let burst_left = if src.chance(40) { 1 + src.below(130) } else { 0 };
+            if burst_left > 0 {
+                rep.class("spurious-failure-burst(1-130 in a row)");
+            }
+            let burst_thread = src.below(nthreads.max(1));
             // the walk consumes raw bytes lazily; hand it the rest of the case
             let n = 400;
             let bytes: Vec<u8> = (0..n).map(|_| src.byte()).collect();
-            Box::new(OwnedWalk { bytes, pos: 0, switch_p, spurious_left })
+            Box::new(OwnedWalk { bytes, pos: 0, switch_p, spurious_left, burst_left, burst_thread })
         }
         2 => {
             rep.class("schedule:pct");
